@@ -439,8 +439,12 @@ fn verify_any_lookup(cfg: &str, label: &[u8], p: LookupProof, eh: &EpochHash) ->
         verify_lookup::<E>(label, p, eh)
     }
 }
-fn verify_any_history(cfg: &str, label: &[u8], p: HistoryProof, eh: &EpochHash) -> Result<Vec<VR>, String> {
-    let vp = HistoryVerificationParams::Default { history_params: HistoryParams::Complete };
+fn verify_any_history(cfg: &str, label: &[u8], p: HistoryProof, eh: &EpochHash, allow_missing: bool) -> Result<Vec<VR>, String> {
+    let vp = if allow_missing {
+        HistoryVerificationParams::AllowMissingValues { history_params: HistoryParams::Complete }
+    } else {
+        HistoryVerificationParams::Default { history_params: HistoryParams::Complete }
+    };
     if cfg == "whatsapp_v1" {
         verify_history::<W>(label, p, eh, vp)
     } else {
@@ -555,20 +559,25 @@ fn malformed(args: &Args, rep: &Report, col: &Collected) {
                     Dec::Panic(msg) => rep.violation(format!("decode_panics/HistoryProof/{class}"), json!({"mutation": desc, "panic": msg})),
                     Dec::Err => rep.count("decode_errors", 1),
                     Dec::Ok(p2) => {
-                        let orig = match dec_history(orig_bytes) {
-                            Dec::Ok(p) => verify_any_history(cfg, label, p, eh),
-                            _ => Err("orig".into()),
-                        };
-                        match catch_unwind(AssertUnwindSafe(|| verify_any_history(cfg, label, p2, eh))) {
-                            Err(_) => rep.violation(format!("verify_panics/HistoryProof/{class}"), json!({"mutation": desc})),
-                            Ok(Ok(list)) => {
-                                if Ok(&list) != orig.as_ref() {
-                                    rep.violation(format!("corrupted_history_verifies_differently/{class}"), json!({"mutation": desc}));
-                                } else {
-                                    rep.count("decoded_and_verified_to_same_result", 1);
+                        // both verification modes: a field lost in transit (e.g. an update proof's value) must not turn
+                        // into the distinguished empty value that the lenient mode accepts
+                        for allow_missing in [false, true] {
+                            let orig = match dec_history(orig_bytes) {
+                                Dec::Ok(p) => verify_any_history(cfg, label, p, eh, allow_missing),
+                                _ => Err("orig".into()),
+                            };
+                            let mode = if allow_missing { "allow_missing" } else { "default" };
+                            match catch_unwind(AssertUnwindSafe(|| verify_any_history(cfg, label, p2.clone(), eh, allow_missing))) {
+                                Err(_) => rep.violation(format!("verify_panics/HistoryProof/{class}"), json!({"mutation": desc})),
+                                Ok(Ok(list)) => {
+                                    if Ok(&list) != orig.as_ref() {
+                                        rep.violation(format!("corrupted_history_verifies_differently/{class}/{mode}"), json!({"mutation": desc, "got": list.iter().map(show_vr).collect::<Vec<_>>()}));
+                                    } else {
+                                        rep.count("decoded_and_verified_to_same_result", 1);
+                                    }
                                 }
+                                Ok(Err(_)) => rep.count("decoded_but_rejected", 1),
                             }
-                            Ok(Err(_)) => rep.count("decoded_but_rejected", 1),
                         }
                     }
                 }
